@@ -395,7 +395,7 @@ func (p *Peer) Honest(m wire.Message) ([]wire.Message, wire.MessageEncoding) {
 	case *wire.MsgGetHeaders:
 		start := int32(0)
 		for _, h := range t.BlockLocatorHashes {
-			if n := g.ByHash[*h]; onMain(n) {
+			if n := g.Lookup(*h); onMain(n) {
 				start = n.Height
 				break
 			}
@@ -412,7 +412,7 @@ func (p *Peer) Honest(m wire.Message) ([]wire.Message, wire.MessageEncoding) {
 		return []wire.Message{resp}, enc
 
 	case *wire.MsgGetCFCheckpt:
-		stop := g.ByHash[t.StopHash]
+		stop := g.Lookup(t.StopHash)
 		if stop == nil || stop.Block == nil || t.FilterType != wire.GCSFilterRegular {
 			return nil, enc
 		}
@@ -425,7 +425,7 @@ func (p *Peer) Honest(m wire.Message) ([]wire.Message, wire.MessageEncoding) {
 		return []wire.Message{resp}, enc
 
 	case *wire.MsgGetCFHeaders:
-		stop := g.ByHash[t.StopHash]
+		stop := g.Lookup(t.StopHash)
 		if stop == nil || stop.Block == nil || t.FilterType != wire.GCSFilterRegular ||
 			int32(t.StartHeight) > stop.Height {
 			return nil, enc
@@ -447,7 +447,7 @@ func (p *Peer) Honest(m wire.Message) ([]wire.Message, wire.MessageEncoding) {
 		return []wire.Message{resp}, enc
 
 	case *wire.MsgGetCFilters:
-		stop := g.ByHash[t.StopHash]
+		stop := g.Lookup(t.StopHash)
 		if stop == nil || stop.Block == nil || t.FilterType != wire.GCSFilterRegular ||
 			int32(t.StartHeight) > stop.Height ||
 			stop.Height-int32(t.StartHeight) >= wire.MaxGetCFiltersReqRange {
@@ -466,7 +466,7 @@ func (p *Peer) Honest(m wire.Message) ([]wire.Message, wire.MessageEncoding) {
 		for _, iv := range t.InvList {
 			switch iv.Type {
 			case wire.InvTypeBlock, wire.InvTypeWitnessBlock:
-				if n := g.ByHash[iv.Hash]; n != nil && n.Block != nil {
+				if n := g.Lookup(iv.Hash); n != nil && n.Block != nil {
 					out = append(out, n.Block)
 				}
 				if iv.Type == wire.InvTypeBlock {
